@@ -68,22 +68,26 @@ package operationapplier
 //@ iface OperationParser.ParseCreateOperation
 //@   results op, err
 //@   ensures err == nil ==> op != nil && fresh(op) && op.SuffixData == reqSuffixData(request) && op.SuffixData != nil && op.Delta == reqDelta(request) && op.Type == operation.TypeCreate
-//@ spec updParsed(parser any, req bytes) bool
+// the parser's verdict depends on the mode it is asked in: the applier always asks in batch mode
+//@ spec updParsed(parser any, req bytes, batch bool) bool
 //@ spec updSDParsed(parser any, c string) bool
-//@ spec recParsed(parser any, req bytes) bool
+//@ spec recParsed(parser any, req bytes, batch bool) bool
+//@ spec deaParsed(parser any, req bytes, batch bool) bool
+//@ spec deaSDParsed(parser any, c string) bool
 //@ spec recSDParsed(parser any, c string) bool
 //@ iface OperationParser.ParseUpdateOperation
 //@   results op, err
-//@   ensures (err == nil) == updParsed(this, request)
+//@   ensures (err == nil) == updParsed(this, request, anchor)
 //@   ensures err == nil ==> op != nil && fresh(op) && op.SignedData == reqSD(request) && op.Delta == reqDelta(request) && op.RevealValue == reqReveal(request) && op.UniqueSuffix == reqSuffix(request) && op.Type == operation.TypeUpdate
 //@   ensures err == nil ==> validMH(boxed(updKey(reqSD(request))), reqReveal(request))
 //@ iface OperationParser.ParseRecoverOperation
 //@   results op, err
-//@   ensures (err == nil) == recParsed(this, request)
+//@   ensures (err == nil) == recParsed(this, request, anchor)
 //@   ensures err == nil ==> op != nil && fresh(op) && op.SignedData == reqSD(request) && op.Delta == reqDelta(request) && op.RevealValue == reqReveal(request) && op.UniqueSuffix == reqSuffix(request) && op.Type == operation.TypeRecover
 //@   ensures err == nil ==> validMH(boxed(recKey(reqSD(request))), reqReveal(request))
 //@ iface OperationParser.ParseDeactivateOperation
 //@   results op, err
+//@   ensures (err == nil) == deaParsed(this, request, anchor)
 //@   ensures err == nil ==> op != nil && fresh(op) && op.SignedData == reqSD(request) && op.RevealValue == reqReveal(request) && op.UniqueSuffix == reqSuffix(request) && op.Type == operation.TypeDeactivate
 //@   ensures err == nil ==> validMH(boxed(deaKey(reqSD(request))), reqReveal(request))
 //@ iface OperationParser.ParseSignedDataForUpdate
@@ -96,13 +100,18 @@ package operationapplier
 //@   ensures err == nil ==> m != nil && fresh(m) && m.RecoveryKey == recKey(compactJWS) && m.RecoveryKey != nil && m.DeltaHash == recDeltaHash(compactJWS) && m.RecoveryCommitment == recCommit(compactJWS) && m.AnchorOrigin == recOrigin(compactJWS) && m.AnchorFrom == recFrom(compactJWS) && m.AnchorUntil == recUntil(compactJWS)
 //@ iface OperationParser.ParseSignedDataForDeactivate
 //@   results m, err
+//@   ensures (err == nil) == deaSDParsed(this, compactJWS)
 //@   ensures err == nil ==> m != nil && fresh(m) && m.RecoveryKey == deaKey(compactJWS) && m.RecoveryKey != nil && m.DidSuffix == deaSuffix(compactJWS) && m.AnchorFrom == deaFrom(compactJWS) && m.AnchorUntil == deaUntil(compactJWS)
 //@ iface OperationParser.ValidateDelta
 //@   ensures (result == nil) == (delta != nil && deltaValid(this, delta))
 //@ iface OperationParser.ValidateSuffixData
 //@   ensures (result == nil) == (suffixData != nil && suffixValid(this, suffixData))
+// ghost: number of patch lists handed to the document composer
+//@ ghost composed int
 //@ iface api/protocol.DocumentComposer.ApplyPatches
 //@   results out, err
+//@   modifies composed
+//@   ensures composed == old(composed) + 1
 //@   ensures (err == nil) == patchOK(doc, patches)
 //@   ensures err == nil ==> out == patched(doc, patches) && out != nil && fresh(out)
 //
@@ -124,6 +133,10 @@ package operationapplier
 //@   ensures rm.Doc != nil ==> err != nil
 //   the created document is empty, or the create's patches applied to a new empty document
 //@   ensures err == nil ==> r0.Doc != nil && ((forall k string :: !(k in r0.Doc)) || (exists d document.Document :: d != nil && fresh(d) && (forall k string :: !(k in d)) && r0.Doc == patched(d, reqDelta(anchoredOp.OperationRequest).Patches)))
+//   a create with a good delta hands its patches to the composer (it is not left empty for another reason)
+//@   ensures err == nil && validMH(boxed(reqDelta(anchoredOp.OperationRequest)), reqSuffixData(anchoredOp.OperationRequest).DeltaHash) && reqDelta(anchoredOp.OperationRequest) != nil && deltaValid(s.OperationParser, reqDelta(anchoredOp.OperationRequest)) ==> composed == old(composed) + 1
+//@   ensures composed <= old(composed) + 1
+//@   modifies composed
 //@   ensures err != nil ==> r0 == nil
 //
 //@ func (*Applier).applyUpdateOperation
@@ -133,10 +146,15 @@ package operationapplier
 //@   ensures err == nil ==> r0.UpdateCommitment == reqDelta(anchoredOp.OperationRequest).UpdateCommitment && r0.RecoveryCommitment == rm.RecoveryCommitment && r0.AnchorOrigin == rm.AnchorOrigin && r0.CreatedTime == rm.CreatedTime && r0.UpdatedTime == anchoredOp.TransactionTime && r0.CanonicalReference == rm.CanonicalReference && r0.EquivalentReferences == rm.EquivalentReferences && !r0.Deactivated && carried(r0, anchoredOp, rm)
 //@   ensures err == nil && !(inWindow(updFrom(reqSD(anchoredOp.OperationRequest)), updUntil(reqSD(anchoredOp.OperationRequest)), anchoredOp.TransactionTime, s.MaxOperationTimeDelta) && patchOK(rm.Doc, reqDelta(anchoredOp.OperationRequest).Patches)) ==> r0.Doc == rm.Doc
 //@   ensures err == nil && inWindow(updFrom(reqSD(anchoredOp.OperationRequest)), updUntil(reqSD(anchoredOp.OperationRequest)), anchoredOp.TransactionTime, s.MaxOperationTimeDelta) && patchOK(rm.Doc, reqDelta(anchoredOp.OperationRequest).Patches) ==> r0.Doc == patched(rm.Doc, reqDelta(anchoredOp.OperationRequest).Patches)
+//   the patches are handed to the composer exactly when the update is anchored inside its window (both bounds included)
+//@   ensures err == nil && inWindow(updFrom(reqSD(anchoredOp.OperationRequest)), updUntil(reqSD(anchoredOp.OperationRequest)), anchoredOp.TransactionTime, s.MaxOperationTimeDelta) ==> composed == old(composed) + 1
+//@   ensures err == nil && !inWindow(updFrom(reqSD(anchoredOp.OperationRequest)), updUntil(reqSD(anchoredOp.OperationRequest)), anchoredOp.TransactionTime, s.MaxOperationTimeDelta) ==> composed == old(composed)
+//@   ensures composed <= old(composed) + 1
+//@   modifies composed
 //@   ensures err != nil ==> r0 == nil
 //   exactly these conditions make an update fail; in particular an authorised update outside its window is NOT an error (it
 //   consumes its commitment and leaves the document unchanged)
-//@   ensures (err == nil) == (rm.Doc != nil && updParsed(s.OperationParser, anchoredOp.OperationRequest) && updSDParsed(s.OperationParser, reqSD(anchoredOp.OperationRequest)) && validMH(boxed(reqDelta(anchoredOp.OperationRequest)), updDeltaHash(reqSD(anchoredOp.OperationRequest))) && sigValid(reqSD(anchoredOp.OperationRequest), updKey(reqSD(anchoredOp.OperationRequest))) && reqDelta(anchoredOp.OperationRequest) != nil && deltaValid(s.OperationParser, reqDelta(anchoredOp.OperationRequest)))
+//@   ensures (err == nil) == (rm.Doc != nil && updParsed(s.OperationParser, anchoredOp.OperationRequest, true) && updSDParsed(s.OperationParser, reqSD(anchoredOp.OperationRequest)) && validMH(boxed(reqDelta(anchoredOp.OperationRequest)), updDeltaHash(reqSD(anchoredOp.OperationRequest))) && sigValid(reqSD(anchoredOp.OperationRequest), updKey(reqSD(anchoredOp.OperationRequest))) && reqDelta(anchoredOp.OperationRequest) != nil && deltaValid(s.OperationParser, reqDelta(anchoredOp.OperationRequest)))
 //
 //@ func (*Applier).applyDeactivateOperation
 //@   requires applierOK(s) && anchoredOp != nil && rm != nil && anchoredOp.TransactionTime < big()
@@ -144,6 +162,8 @@ package operationapplier
 //@   ensures err == nil ==> inWindow(deaFrom(reqSD(anchoredOp.OperationRequest)), deaUntil(reqSD(anchoredOp.OperationRequest)), anchoredOp.TransactionTime, s.MaxOperationTimeDelta)
 //@   ensures err == nil ==> r0.Deactivated && r0.UpdateCommitment == "" && r0.RecoveryCommitment == "" && r0.Doc != nil && fresh(r0.Doc)
 //@   ensures err == nil ==> r0.CreatedTime == rm.CreatedTime && r0.UpdatedTime == anchoredOp.TransactionTime && r0.CanonicalReference == rm.CanonicalReference && r0.EquivalentReferences == rm.EquivalentReferences && r0.AnchorOrigin == rm.AnchorOrigin && carried(r0, anchoredOp, rm)
+//   exactly these conditions make a deactivate fail (parsed in batch mode; the window includes both bounds)
+//@   ensures (err == nil) == (rm.Doc != nil && deaParsed(s.OperationParser, anchoredOp.OperationRequest, true) && deaSDParsed(s.OperationParser, reqSD(anchoredOp.OperationRequest)) && reqSuffix(anchoredOp.OperationRequest) == deaSuffix(reqSD(anchoredOp.OperationRequest)) && sigValid(reqSD(anchoredOp.OperationRequest), deaKey(reqSD(anchoredOp.OperationRequest))) && inWindow(deaFrom(reqSD(anchoredOp.OperationRequest)), deaUntil(reqSD(anchoredOp.OperationRequest)), anchoredOp.TransactionTime, s.MaxOperationTimeDelta))
 //@   ensures err != nil ==> r0 == nil
 //
 //@ func (*Applier).applyRecoverOperation
@@ -155,10 +175,16 @@ package operationapplier
 //@   ensures err == nil ==> r0.Doc != nil && r0.Doc != rm.Doc
 //   a recover anchored outside its window still advances the commitments but leaves the document empty
 //@   ensures err == nil && !inWindow(recFrom(reqSD(anchoredOp.OperationRequest)), recUntil(reqSD(anchoredOp.OperationRequest)), anchoredOp.TransactionTime, s.MaxOperationTimeDelta) ==> (forall k string :: !(k in r0.Doc))
-//@   ensures (err == nil) == (rm.Doc != nil && recParsed(s.OperationParser, anchoredOp.OperationRequest) && recSDParsed(s.OperationParser, reqSD(anchoredOp.OperationRequest)) && sigValid(reqSD(anchoredOp.OperationRequest), recKey(reqSD(anchoredOp.OperationRequest))))
+//@   ensures (err == nil) == (rm.Doc != nil && recParsed(s.OperationParser, anchoredOp.OperationRequest, true) && recSDParsed(s.OperationParser, reqSD(anchoredOp.OperationRequest)) && sigValid(reqSD(anchoredOp.OperationRequest), recKey(reqSD(anchoredOp.OperationRequest))))
 //   after a recover the document consists solely of the recover's own content: it is empty, or the recover's patches
 //   applied to a new empty document - never to the previous document
 //@   ensures err == nil ==> (forall k string :: !(k in r0.Doc)) || (exists d document.Document :: d != nil && fresh(d) && (forall k string :: !(k in d)) && r0.Doc == patched(d, reqDelta(anchoredOp.OperationRequest).Patches))
+//   a recover with a good delta, anchored inside its window (both bounds included), hands its patches to the composer;
+//   outside the window nothing is composed
+//@   ensures err == nil && validMH(boxed(reqDelta(anchoredOp.OperationRequest)), recDeltaHash(reqSD(anchoredOp.OperationRequest))) && reqDelta(anchoredOp.OperationRequest) != nil && deltaValid(s.OperationParser, reqDelta(anchoredOp.OperationRequest)) && inWindow(recFrom(reqSD(anchoredOp.OperationRequest)), recUntil(reqSD(anchoredOp.OperationRequest)), anchoredOp.TransactionTime, s.MaxOperationTimeDelta) ==> composed == old(composed) + 1
+//@   ensures err == nil && !inWindow(recFrom(reqSD(anchoredOp.OperationRequest)), recUntil(reqSD(anchoredOp.OperationRequest)), anchoredOp.TransactionTime, s.MaxOperationTimeDelta) ==> composed == old(composed)
+//@   ensures composed <= old(composed) + 1
+//@   modifies composed
 //@   ensures err != nil ==> r0 == nil
 //
 //@ func (*Applier).Apply
@@ -169,4 +195,5 @@ package operationapplier
 //@   ensures err == nil && op.Type == operation.TypeDeactivate ==> authDeactivate(op.OperationRequest) && r0.Deactivated && r0.UpdateCommitment == "" && r0.RecoveryCommitment == ""
 //@   ensures err == nil && op.Type == operation.TypeCreate ==> rm.Doc == nil && !r0.Deactivated
 //@   ensures err == nil && op.Type != operation.TypeCreate ==> rm.Doc != nil
+//@   modifies composed
 //@   ensures err != nil ==> r0 == nil
